@@ -272,3 +272,214 @@ Definition sk_put_result : list ev :=
    IfB;
    Else;
    IfE].
+
+Definition sk_apply_to_file : list ev :=
+  [IfB;
+   Ret;
+   Else;
+   IfE;
+   Rd "offset_cache";
+   IfB;
+   Rd "offset_cache";
+   IfB;
+   Rd "offset_cache";
+   Call "fd_seek";
+   Else;
+   IfE;
+   Rd "offset_cache";
+   Ret;
+   Else;
+   IfE;
+   TryB;
+   Call "fd_tell";
+   Call "seeker_new";
+   Call "seeker_run";
+   IfB;
+   Call "fd_seek";
+   Else;
+   Call "fd_seek";
+   IfE;
+   IfB;
+   Wr "offset_cache";
+   Else;
+   Wr "offset_cache";
+   IfE;
+   Handler "NoTimestampsFoundInFile";
+   Call "fd_seek";
+   Handler "NoValidLinesFoundInFile";
+   Call "fd_seek";
+   Handler "TooManyLinesWithoutDate";
+   Call "fd_seek";
+   Handler "MaxSearchableLineLengthReached";
+   Call "fd_seek";
+   TryElse;
+   Rd "offset_cache";
+   Rd "offset_cache";
+   TryE;
+   Ret].
+
+Definition sk_extracted_datetime : list ev :=
+  [IfB;
+   Call "decode_window";
+   Else;
+   IfE;
+   Call "ts_match";
+   IfB;
+   TryB;
+   Rd "strptime";
+   Ret;
+   Handler "ValueError";
+   Ret;
+   TryE;
+   Else;
+   IfE;
+   Ret].
+
+Definition sk_seeker_run : list ev :=
+  [Call "tfld";
+   IfB;
+   RaiseE "NoValidLinesFoundInFile";
+   Else;
+   IfE;
+   IfB;
+   IfB;
+   Ret;
+   Else;
+   IfE;
+   Else;
+   IfE;
+   TryB;
+   Call "bisect_left";
+   Handler "TooManyLinesWithoutDate";
+   IfB;
+   RaiseE "NoTimestampsFoundInFile";
+   Else;
+   IfE;
+   RaiseE "reraise";
+   TryE;
+   IfB;
+   RaiseE "NoValidLinesFoundInFile";
+   Else;
+   IfE;
+   Ret].
+
+Definition sk_seeker_getitem : list ev :=
+  [Call "tfld";
+   IfB;
+   Call "tfld";
+   Else;
+   IfE;
+   IfB;
+   RaiseE "TooManyLinesWithoutDate";
+   Else;
+   IfE;
+   IfB;
+   Else;
+   IfE;
+   Ret].
+
+Definition sk_find_token : list ev :=
+  [Call "seek";
+   LoopB;
+   Call "read";
+   IfB;
+   Ret;
+   Else;
+   IfE;
+   IfB;
+   Ret;
+   Else;
+   IfE;
+   LoopE;
+   RaiseE "MaxSearchableLineLengthReached"].
+
+Definition sk_find_token_reverse : list ev :=
+  [LoopB;
+   IfB;
+   Else;
+   IfE;
+   Call "seek";
+   Call "read";
+   IfB;
+   Ret;
+   Else;
+   IfE;
+   IfB;
+   Ret;
+   Else;
+   IfE;
+   IfB;
+   Break;
+   Else;
+   IfE;
+   IfB;
+   Ret;
+   Else;
+   IfE;
+   LoopE;
+   RaiseE "MaxSearchableLineLengthReached"].
+
+Definition sk_run_search : list ev :=
+  [Call "stats_reset";
+   LoopB;
+   IfB;
+   Call "seq_reset";
+   Else;
+   IfE;
+   LoopE;
+   Call "apply_global";
+   Call "enumerate_lines";
+   LoopB;
+   IfB;
+   Else;
+   IfE;
+   Rd "lines_searched";
+   Wr "lines_searched";
+   Call "decode_line";
+   LoopB;
+   IfB;
+   Call "apply_single";
+   IfB;
+   Continue;
+   Else;
+   IfE;
+   Else;
+   IfE;
+   IfB;
+   Call "sequence_search";
+   Else;
+   Call "simple_search";
+   IfE;
+   LoopE;
+   LoopE;
+   Call "process_sequences";
+   Rd "lines_searched";
+   IfB;
+   LoopB;
+   IfB;
+   LoopB;
+   LoopE;
+   Else;
+   IfE;
+   LoopE;
+   Else;
+   IfE;
+   Ret].
+
+Definition sk_run_single : list ev :=
+  [LoopB;
+   Call "task_execute";
+   Call "stats_update";
+   LoopE;
+   Wr "jobs_completed";
+   Wr "total_jobs"].
+
+Definition sk_stats_update : list ev :=
+  [IfB;
+   Ret;
+   Else;
+   IfE;
+   LoopB;
+   Rd "stat_slot";
+   Wr "stat_slot";
+   LoopE].
